@@ -797,6 +797,21 @@ def check_C10(run, replay=None):
                          max_write=2500)
     F.std_scenarios(env, rng, n // 2, prof, nops=(15, 35), img_kw=dict(dirty_free=48), want=["f16_min", "f16_exact", "f16_spc2", "f32_min", "f32_root5", "f16_slack"])
     F.std_scenarios(env, rng, n // 2, prof, nops=(15, 35), img_kw=dict(dirty_free=48, big_dir=True), want=["f16_min", "f16_spc2", "f32_min", "f32_root5"])
+    # directed: directories whose clusters are exactly full, so that a create has to grow them
+    for j in range(max(n // 5, 4)):
+        geo = fsgen.geometry(rng, None, ["f16_min", "f16_spc2", "f32_min", "f32_root5", "f16_exact"])
+        img, meta = fsgen.build_image(rng, geo, populate=1, dirty_free=64, exact_dir=True)
+        path, dev = env.new_image(img, "grow%d" % j)
+        meta = dict(meta); meta["dev0"] = dev
+        hx = fsgen.hx
+        ops = ["openvol %d -> $v" % meta["slot"], "openroot $v -> $r", "opendir $r %s -> $s" % hx("SUB")]
+        for i in range(3):
+            tgt = rng.choice(["$s", "$s", "$r"])
+            ops.append(rng.choice(["open %s %s RWC -> $n%d" % (tgt, hx("NEW%d.X" % i), i), "mkdir %s %s" % (tgt, hx("ND%d" % i)),
+                                   "open %s %s RWCA -> $n%d" % (tgt, hx("NEW%d.X" % i), i)]))
+            if ops[-1].startswith("open"):
+                ops += ["write $n%d %d %d" % (i, rng.choice([10, 600, 1500]), i), "close $n%d" % i]
+        env.add_script("grow%03d" % j, path, (1, 4, 4), ops, 5000, (), meta)
     env.run_all(writes=True)
     bad = 0
     npoints = 0
@@ -882,6 +897,24 @@ def check_C16(run, replay=None):
     F.std_scenarios(env, rng, n // 2, prof, nops=(20, 50), kind="fat32")
     F.std_scenarios(env, rng, n // 4, prof, nops=(20, 50), kind="fat32", img_kw=dict(free_left=2))
     F.std_scenarios(env, rng, n // 4, prof, nops=(20, 50), kind="fat16")
+    # directed: every information-sector variant, allocate and free several clusters, flush and close the volume
+    for j, gname in enumerate(["f32_min", "f32_stale0", "f32_stalehigh", "f32_oor", "f32_unkcount", "f32_root5", "f32_exact"] * (1 if run.tier == "quick" else 4)):
+        geo = fsgen.geometry(rng, None, [gname])
+        img, meta = fsgen.build_image(rng, geo, populate=1, ensure_big=True)
+        path, dev = env.new_image(img, "info%d" % j)
+        meta = dict(meta); meta["dev0"] = dev
+        hx = fsgen.hx; bpc = meta["spc"] * 512
+        ops = ["openvol %d -> $v" % meta["slot"], "openroot $v -> $r"]
+        if j % 2:
+            ops += ["open $r %s RWT -> $t" % hx("BIGGER.BIN"), "close $t"]
+        ops += ["delete $r %s" % hx("BIGGER.BIN"),
+               "open $r %s RWC -> $a" % hx("GROW.A"), "write $a %d 1" % (3 * bpc + 5), "flush $a", "close $a",
+               "open $r %s RWT -> $b" % hx("GROW.A"), "close $b",
+               "open $r %s RWCA -> $c" % hx("GROW.A"), "write $c %d 2" % (2 * bpc), "close $c",
+               "delete $r %s" % hx("GROW.A"), "delete $r %s" % hx("A.TXT"),
+               "open $r %s RWC -> $d" % hx("LAST.B"), "write $d %d 3" % bpc, "close $d",
+               "closedir $r", "closevol $v"]
+        env.add_script("info%03d" % j, path, (1, 4, 4), ops, 5000, (), meta)
     env.run_all(writes=True)
     bad = 0
     for sc in env.scripts:
